@@ -43,7 +43,8 @@ REQUIRED_COUNTERS = ['bs_prod_calls', 'table_cells_checked',
                      'uint8_wrap_overlaps_checked',
                      'measure_syndrome_after_deform_of_used_object',
                      'converter_results_modified_in_place',
-                     'arguments_compared_after_the_call']
+                     'arguments_compared_after_the_call',
+                     'stacks_of_different_operators_converted']
 EXHAUSTIVE = True
 EXHAUSTIVE_SCOPE = ('bs_prod on all operator pairs for n<=3 (thorough; n<=2 '
                     'plus stacked n=3 in quick) x 9x9 representation pairs x '
@@ -419,6 +420,40 @@ def converter_case(out, s):
             bad('bsparse.dot', f'{d} != parity of Y count')
 
 
+def converter_stack_case(out, strings):
+    """Stacks of DIFFERENT operators through the stack converters, dense and
+    csr: entry i of the result belongs to row i alone."""
+    from panqec import bpauli
+    M = np.array([ref_string_to_bsf(t) for t in strings], dtype='uint8')
+    desc = {'f': 'stack-converters', 'rows': len(strings),
+            'n': len(strings[0]), 'first': strings[0][:12]}
+    out.case(desc, nontrivial=bool(M.any()))
+    for rep, nm in ((M, 'dense'), (csr_matrix(M), 'csr'),
+                    (M.astype(np.int64), 'dense-int64')):
+        out.count('converter_roundtrips')
+        back = call_pure(out, 'bsf_to_pauli', bpauli.bsf_to_pauli, rep)
+        if list(back) != list(strings):
+            i = next((i for i, (a, b) in enumerate(zip(back, strings))
+                      if a != b), None)
+            out.violation(f'converter/bsf_to_pauli/stack-{nm}',
+                          f'row {i} of a {len(strings)}-row stack came back '
+                          f'as {back[i] if i is not None else back!r} '
+                          f'instead of {strings[i] if i is not None else ""}',
+                          desc)
+    ints = call_pure(out, 'bvectors_to_ints', bpauli.bvectors_to_ints,
+                     [r for r in M])
+    ref_ints = [int(''.join(str(int(b)) for b in r), 2) for r in M]
+    out.count('converter_roundtrips')
+    if [int(x) for x in ints] != ref_ints:
+        out.violation('converter/bvectors_to_ints/stack',
+                      'stack of different vectors -> wrong integers', desc)
+    bv = bpauli.ints_to_bvectors(ref_ints, len(strings[0]))
+    out.count('converter_roundtrips')
+    if not np.array_equal(np.asarray(bv).astype(int), M.astype(int)):
+        out.violation('converter/ints_to_bvectors/stack',
+                      'stack of different integers -> wrong vectors', desc)
+
+
 def brank_case(out, rng, m, n2, density):
     from panqec import bpauli
     M = (rng.random((m, n2)) < density).astype('uint8')
@@ -611,6 +646,13 @@ def run_task(task, out):
             probs = rng.dirichlet([0.5] * 4)
             converter_case(out, ''.join(rng.choice(list('IXYZ'), size=L,
                                                    p=probs)))
+        for _ in range(40 if task['tier'] == 'quick' else 400):
+            L = int(rng.integers(1, 40))
+            k = int(rng.integers(2, 7))
+            probs = rng.dirichlet([0.7] * 4)
+            converter_stack_case(out, [''.join(rng.choice(
+                list('IXYZ'), size=L, p=probs)) for _ in range(k)])
+            out.count('stacks_of_different_operators_converted')
         for _ in range(30 if task['tier'] == 'quick' else 300):
             brank_case(out, rng, int(rng.integers(1, 14)),
                        int(rng.integers(1, 80)),
